@@ -388,6 +388,20 @@ class StreamResponse(
         if self._cookies:
             populate_with_cookies(headers, self._cookies)
 
+        if (
+            not self._chunked
+            and self._length_check
+            and not self._must_be_empty_body
+            and "chunked" in headers.get(hdrs.TRANSFER_ENCODING, "").lower()
+        ):
+            # The header announces chunked framing: the body has to be sent
+            # that way, and without a Content-Length.
+            if version == HttpVersion11:
+                self._chunked = True
+                headers.popall(hdrs.CONTENT_LENGTH, None)
+            else:
+                del headers[hdrs.TRANSFER_ENCODING]
+
         if self._compression:
             await self._start_compression(request)
 
